@@ -4,7 +4,9 @@ package c06
 
 import (
 	"context"
+	"errors"
 	"fmt"
+	"io"
 	"runtime"
 	"sort"
 	"strings"
@@ -250,6 +252,26 @@ func run(tb ev.TB, c xCase) (labels []string, nontrivial bool) {
 						}
 						sort.Strings(ns)
 						o.got, o.want = strings.Join(ns, ","), topicName(k.Tag)
+					case "readEarly":
+						// a batch that is closed before it was read to its end: the rest of the fetch response has to be skipped
+						// before any other call reads its own response from the connection
+						if _, err := conn.Seek(0, kafka.SeekStart); err != nil {
+							o.err = err
+							break
+						}
+						b := conn.ReadBatchWith(kafka.ReadBatchConfig{MinBytes: 1, MaxBytes: 1 << 20, MaxWait: 20 * time.Millisecond})
+						m, err := b.ReadMessage()
+						cerr := b.Close()
+						switch {
+						case err != nil:
+							o.err = err
+						case cerr != nil:
+							o.err = cerr
+						default:
+							// the Conn has one position shared by all callers: whatever offset the batch started at, the
+							// message must be the record the log holds at that offset (compared below)
+							o.got, o.want = fmt.Sprintf("%d:%s", m.Offset, m.Value), "record-at-offset"
+						}
 					case "write":
 						var off int64
 						_, _, off, _, o.err = conn.WriteCompressedMessagesAt(nil, kafka.Message{Value: []byte(fmt.Sprintf("p-%d", k.Tag))})
@@ -398,6 +420,17 @@ func run(tb ev.TB, c xCase) (labels []string, nontrivial bool) {
 	}
 	holds.Wait()
 
+	// The broker of this unit answers every request correctly (some answers late or in small pieces, and in transport mode
+	// cut or dropped).  io.ErrNoProgress is what a Conn returns when the response header it reads belongs to no call in
+	// flight: on a Conn whose responses were neither cut nor dropped that can only be bytes of one response read as another.
+	if c.Mode == "conn" {
+		for _, o := range outs {
+			if errors.Is(o.err, io.ErrNoProgress) {
+				ev.Fail(tb, "xtalk", "c06/conn/stream-misaligned", c, "conn call %s tag %d failed with %v although the broker answered every request completely: part of one response was read as the start of another", o.c.Kind, o.c.Tag, o.err)
+				return
+			}
+		}
+	}
 	// oracle: every call got an error or the answer carrying its own tag
 	log := cl.Records("t", 0)
 	lab := map[string]bool{}
@@ -409,6 +442,22 @@ func run(tb ev.TB, c xCase) (labels []string, nontrivial bool) {
 		}
 		oks++
 		want := o.want
+		if want == "record-at-offset" {
+			var off int64
+			var val string
+			fmt.Sscanf(o.got, "%d:%s", &off, &val)
+			inLog := "<no record at that offset>"
+			for _, r := range log {
+				if r.Offset == off {
+					inLog = string(r.Value)
+				}
+			}
+			if val != inLog {
+				ev.Fail(tb, "xtalk", "c06/"+c.Mode+"/readEarly", c, "%s call tag %d read %q at offset %d, the log holds %q there", c.Mode, o.c.Tag, val, off, inLog)
+				return
+			}
+			continue
+		}
 		if want == "log" {
 			var off int64
 			fmt.Sscan(o.got, &off)
@@ -474,7 +523,7 @@ func run(tb ev.TB, c xCase) (labels []string, nontrivial bool) {
 
 func genCase(t *rapid.T, mode string) xCase {
 	c := xCase{Mode: mode, Brokers: 1, Sched: map[string]int{}}
-	kinds := []string{"offset", "partitions", "write", "create", "coordinator", "committed"}
+	kinds := []string{"offset", "partitions", "write", "create", "coordinator", "committed", "readEarly", "readEarly"}
 	if mode == "transport" {
 		c.Brokers = rapid.IntRange(1, 3).Draw(t, "brokers")
 		c.IdleMs = rapid.SampledFrom([]int{1, 5, 50, 1000}).Draw(t, "idleMs")
